@@ -100,7 +100,15 @@ static double ulpF(double x) {
 static bool eqF(double a, double b) {
     if (a == b) return true;
     if (std::isnan(a) || std::isnan(b)) return false;
-    return std::fabs(a - b) <= 2.0 * ulpF(std::max(std::fabs(a), std::fabs(b)));
+    // 2^-22 relative = 2 ulp(float) at the top of a binade.  The rounding happens in output units, the comparison in SI, so the
+    // tolerance must not depend on the binade: rounding to REAL (<= 2^-24) + 8 significant decimal digits of a formatted
+    // REAL (<= 5e-8) + rounding of that decimal back to REAL (<= 2^-24) = 1.7e-7 < 2^-22 = 2.4e-7.
+    return std::fabs(a - b) <= std::ldexp(1.0, -22) * std::max(std::fabs(a), std::fabs(b));
+}
+static bool eqRel(double a, double b, double tol) {
+    if (a == b) return true;
+    if (std::isnan(a) || std::isnan(b)) return false;
+    return std::fabs(a - b) <= tol * std::max(std::fabs(a), std::fabs(b));
 }
 static std::string num(double v) { char b[40]; snprintf(b, sizeof b, "%.17g", v); return b; }
 
@@ -111,8 +119,10 @@ struct Diff {
     std::string ctx;          // current entity ("well W1", ...)
     std::string usfx;         // ":FIELD" ... appended to the keys of real valued fields (a unit error is a different defect per system)
     long udaDefinednessDiffers = 0;
+    bool ambiguousUda = false;
+    std::map<std::string, long> feat;   // what the compared schedules contained (evidence)
     void add(const std::string& key, const std::string& text) { items.emplace_back(key, ctx + ": " + key + " " + text); }
-    void real(const std::string& key, double a, double b) { ++ncmp; if (!eqF(a, b)) add(key + usfx, "original " + num(a) + " restarted " + num(b) + " (SI)"); }
+    void real(const std::string& key, double a, double b, bool unitInKey = true) { ++ncmp; if (!eqF(a, b)) add(key + (unitInKey ? usfx : std::string()), "original " + num(a) + " restarted " + num(b) + " (SI)"); }
     template <class T> void exact(const std::string& key, const T& a, const T& b) {
         ++ncmp;
         if (!(a == b)) { std::ostringstream o; o << "original " << a << " restarted " << b; add(key, o.str()); }
@@ -122,6 +132,9 @@ struct Diff {
     // UDA: same kind (number / UDQ name); numbers equal to single precision in SI, names equal
     void uda(const std::string& key, const UDAValue& a, const UDAValue& b, bool nameOnly = false) {
         ++ncmp;
+        // WELTARG with a number on an item that held a UDQ name leaves both in the UDAValue (update_value does not clear the name):
+        // the original run evaluates the number, the file records the UDQ as active and the restarted run evaluates the UDQ.
+        if (a.is<std::string>() && a.is<double>()) { ambiguousUda = true; add(key + ".number-and-udq-name", "original holds the number " + num(a.get<double>()) + " and the UDQ name " + a.get<std::string>() + "; restarted " + (b.is<std::string>() ? "UDQ " + b.get<std::string>() : std::string("number"))); return; }
         const bool sa = a.is<std::string>(), sb = b.is<std::string>();
         if (sa != sb) { add(key + ".kind", std::string("original ") + (sa ? "UDQ " + a.get<std::string>() : "number") + " restarted " + (sb ? "UDQ " + b.get<std::string>() : "number")); return; }
         if (sa) { if (a.get<std::string>() != b.get<std::string>()) add(key, "original " + a.get<std::string>() + " restarted " + b.get<std::string>()); return; }
@@ -349,8 +362,10 @@ static std::string kwText(const DeckKeyword& kw) {
                 case type_tag::integer: o << item.get<int>(i); break;
                 case type_tag::string: o << item.get<std::string>(i); break;
                 case type_tag::raw_string: o << item.get<RawString>(i); break;
-                case type_tag::fdouble: { char b[32]; snprintf(b, sizeof b, "%.6g", item.get<double>(i)); o << b; break; }
-                case type_tag::uda: { const auto u = item.get<UDAValue>(i); if (u.is<std::string>()) o << u.get<std::string>(); else if (u.is<double>()) { char b[32]; snprintf(b, sizeof b, "%.6g", u.get<double>()); o << b; } else o << "?"; break; }
+                // DeckItem keeps doubles in deck units or in SI and converts lazily in place (applying the action converts the stored
+                // keyword): always read SI
+                case type_tag::fdouble: { char b[32]; double v; try { v = item.getSIDouble(i); } catch (const std::exception&) { v = item.get<double>(i); } snprintf(b, sizeof b, "%.6g", v); o << b; break; }
+                case type_tag::uda: { const auto u = item.get<UDAValue>(i); if (u.is<std::string>()) o << u.get<std::string>(); else if (u.is<double>()) { char b[32]; double v; try { v = u.getSI(); } catch (const std::exception&) { v = u.get<double>(); } snprintf(b, sizeof b, "%.6g", v); o << b; } else o << "?"; break; }
                 default: o << "?";
                 }
                 o << ",";
@@ -385,10 +400,20 @@ static void cmpWell(const Well& a, const Well& b, const SchedCmpOpts& opt, Diff&
     d.real("well.drainageRadius", a.getDrainageRadius(), b.getDrainageRadius());
     d.exact("well.isMultiSegment", a.isMultiSegment(), b.isMultiSegment());
     const bool ctrlFree = opt.activeCtrlDiffers.count(a.name()) > 0;
+    d.feat[std::string("well:") + (a.isProducer() ? "producer" : "injector") + (a.predictionMode() ? ":prediction" : ":history")]++;
+    d.feat[std::string("well status:") + WellStatus2String(a.getStatus())]++;
+    if (a.getEfficiencyFactor() != 1.0) d.feat["well:efficiency factor != 1"]++;
+    if (a.getGuideRate() >= 0) d.feat["well:WGRUPCON guide rate"]++;
+    if (!a.isAvailableForGroupControl()) d.feat["well:not available for group control"]++;
+    if (ctrlFree) d.feat["well:active control differs from requested (control mode not compared)"]++;
+    if (opt.notFlowing.count(a.name())) d.feat["well:open without open connection (status not compared)"]++;
     const bool open = a.getStatus() == Well::Status::OPEN;
+    d.ambiguousUda = false;
     if (a.isProducer() && b.isProducer()) {
         const auto& p = a.getProductionProperties();
         const auto& q = b.getProductionProperties();
+        for (const UDAValue* u : {&p.OilRate, &p.WaterRate, &p.GasRate, &p.LiquidRate, &p.ResVRate, &p.BHPTarget, &p.THPTarget}) if (u->is<std::string>()) d.feat["well:UDA in production control"]++;
+        if (p.VFPTableNumber > 0) d.feat["well:VFP table"]++;
         d.uda("well.prod.OilRate", p.OilRate, q.OilRate);
         d.uda("well.prod.WaterRate", p.WaterRate, q.WaterRate);
         d.uda("well.prod.GasRate", p.GasRate, q.GasRate);
@@ -408,17 +433,22 @@ static void cmpWell(const Well& a, const Well& b, const SchedCmpOpts& opt, Diff&
         if (!ctrlFree) d.exact("well.prod.controls", p.productionControls() & ~(int)Well::ProducerCMode::GRUP, q.productionControls() & ~(int)Well::ProducerCMode::GRUP);
         if (open && !ctrlFree) d.enm("well.prod.controlMode", p.controlMode, q.controlMode);
         d.enm("well.prod.whistctl_cmode", p.whistctl_cmode, q.whistctl_cmode);
-        // what the simulator sees: limits evaluated against the summary state
-        if (opt.st) {
+        // what the simulator sees: limits evaluated against the summary state (skipped when a UDA of this well has been reported as
+        // holding a number and a name: the evaluated values differ as a consequence)
+        if (opt.st && !d.ambiguousUda) {
             try {
                 const auto ca = a.productionControls(*opt.st), cb = b.productionControls(*opt.st);
-                d.real("well.prodctl.oil_rate", ca.oil_rate, cb.oil_rate);
-                d.real("well.prodctl.water_rate", ca.water_rate, cb.water_rate);
-                d.real("well.prodctl.gas_rate", ca.gas_rate, cb.gas_rate);
-                d.real("well.prodctl.liquid_rate", ca.liquid_rate, cb.liquid_rate);
-                d.real("well.prodctl.resv_rate", ca.resv_rate, cb.resv_rate);
+                // a limit counts when its control is part of the well's control set (a value left over from an earlier keyword whose
+                // control has been dropped is not written); history wells: the observed rates always count
+                using PM = Well::ProducerCMode;
+                const bool hist = !ca.prediction_mode;
+                if (hist || ca.hasControl(PM::ORAT)) d.real("well.prodctl.oil_rate", ca.oil_rate, cb.oil_rate);
+                if (hist || ca.hasControl(PM::WRAT)) d.real("well.prodctl.water_rate", ca.water_rate, cb.water_rate);
+                if (hist || ca.hasControl(PM::GRAT)) d.real("well.prodctl.gas_rate", ca.gas_rate, cb.gas_rate);
+                if (ca.hasControl(PM::LRAT)) d.real("well.prodctl.liquid_rate", ca.liquid_rate, cb.liquid_rate);
+                if (!hist && ca.hasControl(PM::RESV)) d.real("well.prodctl.resv_rate", ca.resv_rate, cb.resv_rate);
                 d.real("well.prodctl.bhp_limit", ca.bhp_limit, cb.bhp_limit);
-                d.real("well.prodctl.thp_limit", ca.thp_limit, cb.thp_limit);
+                if (ca.hasControl(PM::THP)) d.real("well.prodctl.thp_limit", ca.thp_limit, cb.thp_limit);
                 d.real("well.prodctl.alq_value", ca.alq_value, cb.alq_value);
                 d.exact("well.prodctl.vfp_table", ca.vfp_table_number, cb.vfp_table_number);
             } catch (const std::exception& e) { d.add("well.prodctl.throws", e.what()); }
@@ -440,13 +470,14 @@ static void cmpWell(const Well& a, const Well& b, const SchedCmpOpts& opt, Diff&
         if (!ctrlFree) d.exact("well.inj.controls", p.injectionControls & ~(int)Well::InjectorCMode::GRUP, q.injectionControls & ~(int)Well::InjectorCMode::GRUP);
         d.enm("well.inj.injectorType", p.injectorType, q.injectorType);
         if (open && !ctrlFree) d.enm("well.inj.controlMode", p.controlMode, q.controlMode);
-        if (opt.st) {
+        if (opt.st && !d.ambiguousUda) {
             try {
                 const auto ca = a.injectionControls(*opt.st), cb = b.injectionControls(*opt.st);
-                d.real("well.injctl.surface_rate", ca.surface_rate, cb.surface_rate);
-                d.real("well.injctl.reservoir_rate", ca.reservoir_rate, cb.reservoir_rate);
+                using IM = Well::InjectorCMode;
+                if (ca.hasControl(IM::RATE)) d.real("well.injctl.surface_rate", ca.surface_rate, cb.surface_rate);
+                if (ca.hasControl(IM::RESV)) d.real("well.injctl.reservoir_rate", ca.reservoir_rate, cb.reservoir_rate);
                 d.real("well.injctl.bhp_limit", ca.bhp_limit, cb.bhp_limit);
-                d.real("well.injctl.thp_limit", ca.thp_limit, cb.thp_limit);
+                if (ca.hasControl(IM::THP)) d.real("well.injctl.thp_limit", ca.thp_limit, cb.thp_limit);
                 d.exact("well.injctl.vfp_table", ca.vfp_table_number, cb.vfp_table_number);
             } catch (const std::exception& e) { d.add("well.injctl.throws", e.what()); }
         }
@@ -464,6 +495,8 @@ static void cmpWell(const Well& a, const Well& b, const SchedCmpOpts& opt, Diff&
         d.exact("conn.J", x.getJ(), y.getJ());
         d.exact("conn.K", x.getK(), y.getK());
         d.exact("conn.global_index", x.global_index(), y.global_index());
+        d.feat[std::string("connection:") + Connection::State2String(x.state())]++;
+        if (x.complnum() != (int)i + 1) d.feat["connection:COMPLUMP"]++;
         d.enm("conn.state", x.state(), y.state());
         d.enm("conn.dir", x.dir(), y.dir());
         d.exact("conn.complnum", x.complnum(), y.complnum());
@@ -473,13 +506,15 @@ static void cmpWell(const Well& a, const Well& b, const SchedCmpOpts& opt, Diff&
         d.real("conn.CF", x.CF(), y.CF());
         d.real("conn.Kh", x.Kh(), y.Kh());
         d.real("conn.rw", x.rw(), y.rw());
-        d.real(a.isMultiSegment() ? "conn.depth.msw" : "conn.depth", x.depth(), y.depth());
+        // (for a multi-segment well the depth is a matter of which value is taken, not of units: one key for all unit systems)
+        if (a.isMultiSegment()) d.real("conn.depth.msw", x.depth(), y.depth(), false); else d.real("conn.depth", x.depth(), y.depth());
         d.real("conn.skinFactor", x.skinFactor(), y.skinFactor());
     }
     if (a.isMultiSegment() && b.isMultiSegment()) {
         const auto& sa = a.getSegments();
         const auto& sb = b.getSegments();
         d.ctx = "well " + a.name();
+        d.feat["well:multi-segment"]++;
         d.exact("seg.count", sa.size(), sb.size());
         d.enm("seg.compPressureDrop", sa.compPressureDrop(), sb.compPressureDrop());
         for (size_t i = 0; i < (size_t)sa.size() && i < (size_t)sb.size(); ++i) {
@@ -517,6 +552,8 @@ static void cmpGroup(const Group& a, const Group& b, const SchedCmpOpts& opt, Di
         sa.clear(); sb.clear(); for (auto& w : ga) sa += w + " "; for (auto& w : gb) sb += w + " ";
         d.str("group.groups", sa, sb);
     }
+    if (a.getGroupEfficiencyFactor() != 1.0) d.feat["group:GEFAC != 1"]++;
+    if (a.parent() != "FIELD" && a.name() != "FIELD") d.feat["group:below a node group"]++;
     d.real("group.gefac", a.getGroupEfficiencyFactor(), b.getGroupEfficiencyFactor());
     d.exact("group.transfer_gefac", a.getTransferGroupEfficiencyFactor(), b.getTransferGroupEfficiencyFactor());
     d.exact("group.isProductionGroup", a.isProductionGroup(), b.isProductionGroup());
@@ -524,6 +561,8 @@ static void cmpGroup(const Group& a, const Group& b, const SchedCmpOpts& opt, Di
     if (a.isProductionGroup() && b.isProductionGroup()) {
         const auto& p = a.productionProperties();
         const auto& q = b.productionProperties();
+        d.feat["group:production control " + Group::ProductionCMode2String(p.cmode)]++;
+        if (p.oil_target.is<std::string>()) d.feat["group:UDA in production target"]++;
         d.enm("group.prod.cmode", p.cmode, q.cmode);
         d.enm("group.prod.action.allRates", p.group_limit_action.allRates, q.group_limit_action.allRates);
         // EXCLUDED: group_limit_action.water/gas/liquid (GCONPROD items 11-13): IGRP has a single exceed-action slot, the per phase
@@ -557,6 +596,7 @@ static void cmpGroup(const Group& a, const Group& b, const SchedCmpOpts& opt, Di
             if (!(ha && hb)) continue;
             const auto& p = a.injectionProperties(ph);
             const auto& q = b.injectionProperties(ph);
+            d.feat["group:injection control " + pn + " " + Group::InjectionCMode2String(p.cmode)]++;
             d.enm("group.inj.cmode", p.cmode, q.cmode);
             // The raw UDA items of GCONINJE carry no usable dimension (the surface rate unit depends on the phase and is applied when
             // the controls are evaluated): names are compared here, numbers through the evaluated controls.
@@ -611,6 +651,7 @@ static void cmpUDQ(const Schedule& A, const Schedule& B, size_t k, const SchedCm
         if (da && db) {
             const auto& x = ia[i].get<UDQDefine>();
             const auto& y = ib[i].get<UDQDefine>();
+            d.feat["udq:DEFINE"]++;
             d.str("udq.define.tokens", tokensText(x), tokensText(y));
             // EXCLUDED: UPDATE NEXT.  IUDQ item 1 is written as 2 for ON and 0 otherwise, NEXT comes back as OFF.
             d.exact("udq.define.update_on", x.status().first == UDQUpdate::ON, y.status().first == UDQUpdate::ON);
@@ -627,6 +668,7 @@ static void cmpUDQ(const Schedule& A, const Schedule& B, size_t k, const SchedCm
                 else if (vt == UDQVarType::GROUP_VAR) { sa = x.eval(opt.rstGroups); sb = y.eval(opt.rstGroups); }
                 else if (vt == UDQVarType::FIELD_VAR || vt == UDQVarType::SCALAR) { sa = x.eval(); sb = y.eval(); }
                 else continue;
+                d.feat["udq:ASSIGN"]++;
                 d.exact("udq.assign.size", sa.size(), sb.size());
                 for (size_t q = 0; q < sa.size() && q < sb.size(); ++q) {
                     // ... and only where the run had assigned a value (a well defined after the ASSIGN has none although the original
@@ -657,6 +699,7 @@ static void cmpActions(const Schedule& A, const Schedule& B, size_t k, Diff& d) 
         d.exact("action.present", true, ab.has(x.name()));
         if (!ab.has(x.name())) continue;
         const auto& y = ab[x.name()];
+        d.feat["action:" + std::to_string(x.conditions().size()) + " conditions"]++;
         d.exact("action.max_run", x.max_run(), y.max_run());
         d.real("action.min_wait", x.min_wait(), y.min_wait());
         // conditions
@@ -682,8 +725,10 @@ static void cmpActions(const Schedule& A, const Schedule& B, size_t k, Diff& d) 
         std::vector<std::string> ka, kb;
         for (const auto& kw : x) ka.push_back(kwText(kw));
         for (const auto& kw : y) kb.push_back(kwText(kw));
+        for (const auto& kw : x) d.feat["action keyword:" + kw.name()]++;
         d.exact("action.keywords.count", ka.size(), kb.size());
-        for (size_t i = 0; i < ka.size() && i < kb.size(); ++i) d.str("action.keyword", ka[i], kb[i]);
+        // (values are rendered in SI: a keyword that comes back in another unit system differs here, hence the unit in the key)
+        for (size_t i = 0; i < ka.size() && i < kb.size(); ++i) d.str("action.keyword" + d.usfx, ka[i], kb[i]);
     }
 }
 
@@ -711,6 +756,7 @@ static void cmpWlists(const Schedule& A, const Schedule& B, size_t k, Diff& d) {
         std::string sa, sb;
         for (const auto& w : wa.getList(l).wells()) sa += w + " ";
         for (const auto& w : wb.getList(l).wells()) sb += w + " ";
+        d.feat["wlist:non-empty list"]++;
         d.str("wlist.wells", sa, sb);
     }
 }
@@ -724,6 +770,7 @@ static void cmpNetwork(const Schedule& A, const Schedule& B, size_t k, Diff& d) 
     auto an = na.node_names(), bn = nb.node_names();
     std::sort(an.begin(), an.end()); std::sort(bn.begin(), bn.end());
     std::string sa, sb; for (auto& n : an) sa += n + " "; for (auto& n : bn) sb += n + " ";
+    d.feat["network:active"]++;
     d.str("network.nodes", sa, sb);
     for (const auto& n : an) {
         if (!nb.has_node(n)) continue;
@@ -799,7 +846,7 @@ int main(int argc, char** argv) {
     const bool thorough = args.tier == "thorough";
     const int flavoursPerStep = (int)args.geti("flavours", thorough ? 8 : 3);
     const double pOtherCtrl = args.getd("other_ctrl", 0.25);
-    const double pApply = args.getd("apply", 0.0);
+    const double pApply = args.getd("apply", 0.5);
     const bool explore = args.geti("explore", 0) != 0;
     const std::string skipKeys = args.get("skip", "");   // harness development only: comma separated key prefixes not reported
 
@@ -855,6 +902,32 @@ int main(int argc, char** argv) {
         // the per-condition list the restart writer uses.  Terminate each comparison properly.
         for (auto& st : m.steps) for (auto& kw : st.kws) if (kw.name == "ACTIONX") {
             for (const char* op : {" AND\n", " OR\n"}) { size_t p = 0; const std::string o = op; while ((p = kw.text.find(o, p)) != std::string::npos) { kw.text.replace(p, o.size(), o.substr(0, o.size() - 1) + " /\n"); p += o.size() + 2; } }
+        }
+        // user defined arguments: the generator defines UDQs but never uses one as a control value.  After an ASSIGN of a well or
+        // field level UDQ, give a producer defined earlier an oil rate target (and a group an oil target) that names it.
+        if (rng.chance(0.5)) {
+            std::map<std::string, size_t> wellStep;
+            for (size_t q = 0; q < m.steps.size(); ++q) for (auto& kw : m.steps[q].kws) if (kw.name == "WELSPECS") { size_t a = kw.text.find('\''), b = kw.text.find('\'', a + 1); if (a != std::string::npos && b != std::string::npos) wellStep.emplace(kw.text.substr(a + 1, b - a - 1), q); }
+            bool done = false;
+            for (size_t q = 0; q < m.steps.size() && !done; ++q) {
+                auto& kws = m.steps[q].kws;
+                for (size_t z = 0; z < kws.size() && !done; ++z) {
+                    if (kws[z].name != "UDQ") continue;
+                    size_t a = kws[z].text.find("ASSIGN ");
+                    if (a == std::string::npos) continue;
+                    std::istringstream is(kws[z].text.substr(a + 7)); std::string uname; is >> uname;
+                    if (uname.size() < 3 || (uname[0] != 'W' && uname[0] != 'F')) continue;
+                    std::vector<const gdeck::WellM*> cand;
+                    for (auto& w : m.wells) if (w.producer && !w.hist) { auto it = wellStep.find(w.name); if (it != wellStep.end() && it->second <= q) cand.push_back(&w); }
+                    if (cand.empty()) continue;
+                    const auto* w = cand[rng.below(cand.size())];
+                    std::string t = "WCONPROD\n '" + w->name + "' 'OPEN' 'ORAT' '" + uname + "' 700 800 900 1000 90 /\n/\n";
+                    if (uname[0] == 'F' && rng.chance(0.5)) t += "GCONPROD\n '" + w->group + "' 'ORAT' '" + uname + "' 3* 'RATE' /\n/\n";
+                    kws.insert(kws.begin() + z + 1, gdeck::KwInst{"WCONPROD", t});
+                    rep.count("cases_with_uda");
+                    done = true;
+                }
+            }
         }
         // a well that is declared and completed but not yet given any control (common in real decks, never produced by the generator)
         if (!m.wells.empty() && rng.chance(0.15)) {
@@ -997,15 +1070,20 @@ int main(int argc, char** argv) {
                 if (xw.dynamicStatus != Well::Status::OPEN) continue;
                 ++nFlowing;
                 const std::string U_ = std::string(":") + USYS[us];
+                // XWEL / XCON / RSEG are DOUB arrays: what comes back differs from what was saved by the roundings of the two unit
+                // conversions (binary, 1e-14) or by the 14 significant digits of a formatted DOUB (2e-13), far inside the single
+                // precision the statement asks for
+                const double dtol = fl.fmt ? 2e-13 : 1e-14;
+                auto eqD = [&](double a, double b) { return eqRel(a, b, dtol); };
                 // rates, bhp, thp travel through DOUB XWEL in output units
                 for (auto [p, nm, dim] : {std::tuple{ROpt::oil, "oil", M::liquid_surface_rate}, std::tuple{ROpt::wat, "wat", M::liquid_surface_rate}, std::tuple{ROpt::gas, "gas", M::gas_surface_rate}}) {
                     ++d.ncmp;
                     const double a = xw.rates.get(p, 0.0), b = yw.rates.get(p, 0.0);
-                    if (!eqF(a, b)) d.add(std::string("dyn:well.rate.") + nm + U_, "saved " + num(a) + " loaded " + num(b));
+                    if (!eqD(a, b)) d.add(std::string("dyn:well.rate.") + nm + U_, "saved " + num(a) + " loaded " + num(b));
                     else rep.maxof("max_rel_err_well_rate", a != 0 ? std::fabs(a - b) / std::fabs(a) : 0);
                 }
-                ++d.ncmp; if (!eqF(xw.bhp, yw.bhp)) d.add("dyn:well.bhp" + U_, "saved " + num(xw.bhp) + " loaded " + num(yw.bhp));
-                ++d.ncmp; if (!eqF(xw.thp, yw.thp)) d.add("dyn:well.thp" + U_, "saved " + num(xw.thp) + " loaded " + num(yw.thp));
+                ++d.ncmp; if (!eqD(xw.bhp, yw.bhp)) d.add("dyn:well.bhp" + U_, "saved " + num(xw.bhp) + " loaded " + num(yw.bhp));
+                ++d.ncmp; if (!eqD(xw.thp, yw.thp)) d.add("dyn:well.thp" + U_, "saved " + num(xw.thp) + " loaded " + num(yw.thp));
                 ++d.ncmp;
                 if (!(yw.current_control == xw.current_control)) {
                     std::ostringstream q; q << "saved " << (xw.current_control.isProducer ? "producer " + std::to_string((int)xw.current_control.prod) : "injector " + std::to_string((int)xw.current_control.inj))
@@ -1020,9 +1098,9 @@ int main(int argc, char** argv) {
                     for (auto [p, nm] : {std::pair{ROpt::oil, "oil"}, std::pair{ROpt::wat, "wat"}, std::pair{ROpt::gas, "gas"}}) {
                         ++d.ncmp;
                         const double a = xc.rates.get(p, 0.0), b = yc->rates.get(p, 0.0);
-                        if (!eqF(a, b)) d.add(std::string("dyn:conn.rate.") + nm + U_, "cell " + std::to_string(xc.index) + " saved " + num(a) + " loaded " + num(b));
+                        if (!eqD(a, b)) d.add(std::string("dyn:conn.rate.") + nm + U_, "cell " + std::to_string(xc.index) + " saved " + num(a) + " loaded " + num(b));
                     }
-                    ++d.ncmp; if (!eqF(xc.pressure, yc->pressure)) d.add("dyn:conn.pressure" + U_, "cell " + std::to_string(xc.index) + " saved " + num(xc.pressure) + " loaded " + num(yc->pressure));
+                    ++d.ncmp; if (!eqD(xc.pressure, yc->pressure)) d.add("dyn:conn.pressure" + U_, "cell " + std::to_string(xc.index) + " saved " + num(xc.pressure) + " loaded " + num(yc->pressure));
                 }
                 if (w.isMultiSegment()) {
                     sawMsw = true;
@@ -1032,7 +1110,7 @@ int main(int argc, char** argv) {
                         if (sit == yw.segments.end()) { d.add("dyn:segment.missing", "segment " + std::to_string(sn) + " not restored"); continue; }
                         const auto& ys = sit->second;
                         const double pa = xs.pressures[data::SegmentPressures::Value::Pressure], pb = ys.pressures[data::SegmentPressures::Value::Pressure];
-                        ++d.ncmp; if (!eqF(pa, pb)) d.add("dyn:segment.pressure" + U_, "segment " + std::to_string(sn) + " saved " + num(pa) + " loaded " + num(pb));
+                        ++d.ncmp; if (!eqD(pa, pb)) d.add("dyn:segment.pressure" + U_, "segment " + std::to_string(sn) + " saved " + num(pa) + " loaded " + num(pb));
                         // phase rates are stored as total flow and two fractions (all DOUB) and recombined: 1e-5 relative to the
                         // largest phase rate of the segment in output units (design guard)
                         const double so = units.from_si(M::liquid_surface_rate, std::fabs(xs.rates.get(ROpt::oil, 0.0)));
@@ -1042,6 +1120,7 @@ int main(int argc, char** argv) {
                         for (auto [p, nm, dim] : {std::tuple{ROpt::oil, "oil", M::liquid_surface_rate}, std::tuple{ROpt::wat, "wat", M::liquid_surface_rate}, std::tuple{ROpt::gas, "gas", M::gas_surface_rate}}) {
                             ++d.ncmp;
                             const double a = xs.rates.get(p, 0.0), b = ys.rates.get(p, 0.0);
+                            if (a != 0) rep.maxof("max_rel_err_segment_rate", std::fabs(a - b) / std::fabs(a) > 1 ? 1.0 : std::fabs(a - b) / std::fabs(a));
                             if (!(std::fabs(a - b) <= 1e-5 * std::fabs(a) || a == b)) d.add(std::string("dyn:segment.rate.") + nm + U_, "segment " + std::to_string(sn) + " saved " + num(a) + " loaded " + num(b));
                         }
                     }
@@ -1105,7 +1184,6 @@ int main(int argc, char** argv) {
                 const std::string tag = "[" + std::string(USYS[us]) + " " + fl.tag() + " report step " + std::to_string(n) + "] ";
                 flavoursUsed.insert(fl.tag());
                 rep.cover("flavour", fl.tag());
-                // unified files must be written in step order: fill the gap if this flavour skipped steps
                 data::Solution sol;
                 for (const auto& a : S.sol) { if (a.isInt) sol.insert(a.name, a.iv, a.target); else sol.insert(a.name, a.dim, a.v, a.target); }
                 RestartValue value(sol, S.wells, {}, {});
@@ -1155,7 +1233,14 @@ int main(int argc, char** argv) {
                     // the restart date is taken from year / month / day of INTEHEAD only: a report step that is not at midnight cannot be
                     // found again in the schedule section
                     const bool timeOfDay = std::fmod(sched.seconds(n), 86400.0) != 0.0 && msg.find("SKIPREST") != std::string::npos;
-                    report(timeOfDay ? "sched:restart-time-of-day-lost" : "sched:restart-construction-throws:" + errClass(msg), tag + "building the restarted schedule threw: " + msg, trace.str() + "--- deck ---\n" + text + "--- restart deck ---\n" + t2);
+                    // documented exclusion (empty well lists leave no trace in the file): a later WLIST ADD to such a list is refused
+                    if (msg.find("Invalid well list") != std::string::npos) {
+                        bool emptyList = false;
+                        for (const char* l : {"*L1", "*L2", "*L3", "*AL0", "*AL1", "*AL2"}) if (sched[simStep].wlist_manager().hasList(l) && sched[simStep].wlist_manager().getList(l).size() == 0) emptyList = true;
+                        if (emptyList) { rep.count("restart_refused_because_of_empty_well_list"); continue; }
+                    }
+                    const bool noCtrl = msg.find("Cannot convert integer value -10 to") != std::string::npos;   // -10 = WMCtlUnk, a well that has no control mode yet
+                    report(timeOfDay ? "sched:restart-time-of-day-lost" : (noCtrl ? "sched:restart-refused:well-without-control-mode" : "sched:restart-construction-throws:" + errClass(msg)), tag + "building the restarted schedule threw: " + msg, trace.str() + "--- deck ---\n" + text + "--- restart deck ---\n" + t2);
                     continue;
                 }
                 rep.count("restarted_schedules");
@@ -1230,6 +1315,7 @@ int main(int argc, char** argv) {
                         cmpSchedule(sched, *rsched, k, so, dk);
                         rep.count("uda_set_on_one_side_only", dk.udaDefinednessDiffers);
                         d.ncmp += dk.ncmp;
+                        for (auto& f : dk.feat) rep.cover("compared_schedule_content", f.first, f.second);
                         for (auto& it : dk.items) d.items.emplace_back("sched:" + it.first, tag + "at report step " + std::to_string(k) + ": " + it.second);
                         rep.count("schedule_states_compared");
                     }
